@@ -49,11 +49,12 @@ void verif_w_init(void){
   __CPROVER_assume(verif_w.uid != verif_w.euid && verif_w.uid != verif_w.gid && verif_w.uid != verif_w.egid && verif_w.euid != verif_w.gid && verif_w.euid != verif_w.egid && verif_w.gid != verif_w.egid);
   __CPROVER_assume(verif_w.tty_uid != verif_w.uid && verif_w.tty_uid != verif_w.euid && verif_w.tty_uid != verif_w.gid && verif_w.tty_uid != verif_w.egid);
   __CPROVER_assume(verif_w.pid != verif_w.ppid && verif_w.pid != verif_w.sid && verif_w.ppid != verif_w.sid && (long)verif_w.pid != verif_w.ktid && (long)verif_w.ppid != verif_w.ktid && (long)verif_w.sid != verif_w.ktid);
-  __CPROVER_assume(verif_w.ptid != (unsigned long)verif_w.ktid && verif_w.ptid != (unsigned long)verif_w.pid);
+  __CPROVER_assume(verif_w.ptid != 0 && verif_w.ptid != (unsigned long)verif_w.ktid && verif_w.ptid != (unsigned long)verif_w.pid);
   verif_w.now = nondet_long(); verif_w.tv_sec = nondet_long(); verif_w.tv_usec = nondet_long();
   __CPROVER_assume(verif_w.now >= 0 && verif_w.tv_sec >= 0 && verif_w.tv_usec >= 0 && verif_w.tv_usec <= 999999 && verif_w.now != verif_w.tv_sec);
   verif_w.pw_asked = 0; verif_w.gr_asked = 0; verif_w.pw_uid = 0; verif_w.gr_gid = 0; verif_w.tty_fd_asked = -7; verif_w.stat_tag = T_NONE; verif_w.env_asked = 0; verif_w.env_val = 0;
   verif_w.getsid_arg = -7; verif_w.syscall_no = -7; verif_w.strftime_fmt = 0; verif_w.strftime_tm = 0; verif_w.localtime_out = 0; verif_w.localtime_in_ok = 0;
+  verif_w.pw_found = verif_w.gr_found = verif_w.cwd_ok = verif_w.host_ok = verif_w.tty_ok = verif_w.stat_ok = verif_w.login_ok = verif_w.env_found = verif_w.strftime_ok = verif_w.time_ok = verif_w.localtime_ok = verif_w.tod_ok = 0;
   verif_w.fd_open = 0; verif_w.lines_left = nondet_uint(); verif_w.utmp_open = 0; verif_w.never = 0; verif_w.login_asked = 0;
   for (int i = 0; i < VERIF_NRS; i++) { verif_w.rs[i].in_use = 0; verif_w.rs[i].eof = 0; verif_w.rs[i].err = 0; verif_w.rs[i].path_tag = 0; }
 }
@@ -74,7 +75,7 @@ int getpwuid_r(uid_t uid, struct passwd *pwd, char *buf, size_t buflen, struct p
   verif_w.pw_asked++; verif_w.pw_uid = uid;
   if (wfail()) { *result = 0; int e = nondet_int(); __CPROVER_assume(e == EIO || e == ERANGE || e == EMFILE || e == ENOMEM || e == EINTR); return e; }
   if (nondet_bool()) { *result = 0; return 0; }            /* no such user: not an error */
-  put_string(buf, buflen, 4096, T_PWNAME);
+  put_string(buf, buflen, 4096, T_PWNAME); verif_w.pw_found = 1;
   pwd->pw_name = buf; pwd->pw_uid = uid; pwd->pw_gid = nondet_uint(); pwd->pw_passwd = 0; pwd->pw_gecos = 0; pwd->pw_dir = 0; pwd->pw_shell = 0;
   *result = pwd; return 0;
 }
@@ -84,7 +85,7 @@ int getgrgid_r(gid_t gid, struct group *grp, char *buf, size_t buflen, struct gr
   verif_w.gr_asked++; verif_w.gr_gid = gid;
   if (wfail()) { *result = 0; int e = nondet_int(); __CPROVER_assume(e == EIO || e == ERANGE || e == EMFILE || e == ENOMEM || e == EINTR); return e; }
   if (nondet_bool()) { *result = 0; return 0; }
-  put_string(buf, buflen, 4096, T_GRNAME);
+  put_string(buf, buflen, 4096, T_GRNAME); verif_w.gr_found = 1;
   grp->gr_name = buf; grp->gr_gid = gid; grp->gr_passwd = 0; grp->gr_mem = 0;
   *result = grp; return 0;
 }
@@ -92,7 +93,7 @@ int getgrgid_r(gid_t gid, struct group *grp, char *buf, size_t buflen, struct gr
 char *getcwd(char *buf, size_t size){
   __CPROVER_assert(buf != 0 && size > 0 && __CPROVER_w_ok(buf, size), "getcwd: size does not exceed the buffer");
   if (wfail()) { errno = nondet_bool() ? ERANGE : (nondet_bool() ? ENOENT : EACCES); __CPROVER_havoc_slice(buf, size); return 0; }   /* deleted / unreadable / too deep */
-  size_t l = put_string(buf, size, 1000000, T_CWD); __CPROVER_assume(l >= 1);
+  size_t l = put_string(buf, size, 1000000, T_CWD); __CPROVER_assume(l >= 1); verif_w.cwd_ok = 1;
   return buf;
 }
 int gethostname(char *buf, size_t len){
@@ -101,14 +102,14 @@ int gethostname(char *buf, size_t len){
   if (nondet_bool()) { if (len > 0) __CPROVER_havoc_slice(buf, len); return 0; }     /* POSIX: a name that does not fit may be truncated silently, terminated or not */
   size_t l = nondet_size_t(); __CPROVER_assume(l <= HOST_NAME_MAX && l < len);
   __CPROVER_havoc_slice(buf, len); buf[l] = 0; if (l > 0) __CPROVER_assume(buf[0] != 0);
-  verif_set_string(buf, l); verif_tag(buf, T_HOSTNAME);
+  verif_set_string(buf, l); verif_tag(buf, T_HOSTNAME); verif_w.host_ok = 1;
   return 0;
 }
 int ttyname_r(int fd, char *buf, size_t len){
   __CPROVER_assert(len == 0 || __CPROVER_w_ok(buf, len), "ttyname_r: len does not exceed the buffer");
   verif_w.tty_fd_asked = fd;
   if (wfail()) { int e = nondet_int(); __CPROVER_assume(e == EBADF || e == ENOTTY || e == ERANGE || e == ENODEV || e == ENOENT); if (len > 0 && nondet_bool()) __CPROVER_havoc_slice(buf, len); return e; }
-  size_t l = put_string(buf, len, 4095, T_TTY); __CPROVER_assume(l >= 1);
+  size_t l = put_string(buf, len, 4095, T_TTY); __CPROVER_assume(l >= 1); verif_w.tty_ok = 1;
   return 0;
 }
 int stat(const char *path, struct stat *st){
@@ -116,14 +117,14 @@ int stat(const char *path, struct stat *st){
   __CPROVER_assert(__CPROVER_w_ok(st, sizeof(*st)), "stat: result writable");
   verif_w.stat_tag = verif_tag_of(path);
   if (wfail()) { errno = nondet_bool() ? ENOENT : EACCES; return -1; }
-  __CPROVER_havoc_object(st); st->st_uid = verif_w.tty_uid;
+  __CPROVER_havoc_object(st); st->st_uid = verif_w.tty_uid; verif_w.stat_ok = 1;
   return 0;
 }
 int getlogin_r(char *buf, size_t n){
   __CPROVER_assert(n == 0 || __CPROVER_w_ok(buf, n), "getlogin_r: size does not exceed the buffer");
   verif_w.login_asked++;
   if (wfail()) { int e = nondet_int(); __CPROVER_assume(e == ENXIO || e == ENOTTY || e == ERANGE || e == ENOENT || e == EMFILE); return e; }   /* buffer untouched */
-  put_string(buf, n, 256, T_LOGIN);
+  put_string(buf, n, 256, T_LOGIN); verif_w.login_ok = 1;
   return 0;
 }
 /* ---- environment ---- */
@@ -131,19 +132,19 @@ char *getenv(const char *name){
   (void)strlen(name);
   verif_w.env_asked = name;
   if (verif_w.env_val == 0 || nondet_bool()) return 0;
-  return verif_w.env_val;
+  verif_w.env_found = 1; return verif_w.env_val;
 }
 /* ---- clock ---- */
 time_t time(time_t *t){
   if (wfail()) { errno = EFAULT; return (time_t)-1; }
   if (t) *t = verif_w.now;
-  return verif_w.now;
+  verif_w.time_ok = 1; return verif_w.now;
 }
 struct tm *localtime_r(const time_t *t, struct tm *out){
   __CPROVER_assert(__CPROVER_r_ok(t, sizeof(*t)) && __CPROVER_w_ok(out, sizeof(*out)), "localtime_r: arguments valid");
   verif_w.localtime_in_ok = (*t == verif_w.now);
   if (wfail()) { errno = EOVERFLOW; return 0; }
-  __CPROVER_havoc_object(out); verif_w.localtime_out = out;
+  __CPROVER_havoc_object(out); verif_w.localtime_out = out; verif_w.localtime_ok = 1;
   return out;
 }
 size_t strftime(char *buf, size_t max, const char *fmt, const struct tm *tm){
@@ -152,13 +153,13 @@ size_t strftime(char *buf, size_t max, const char *fmt, const struct tm *tm){
   (void)strlen(fmt);
   verif_w.strftime_fmt = fmt; verif_w.strftime_tm = tm;
   if (max == 0 || nondet_bool()) { if (max > 0) __CPROVER_havoc_slice(buf, max); return 0; }      /* does not fit (or empty result): contents undefined */
-  size_t l = put_string(buf, max, 1000000, T_STRFTIME);
+  size_t l = put_string(buf, max, 1000000, T_STRFTIME); __CPROVER_assume(l >= 1); verif_w.strftime_ok = 1;
   return l;
 }
 int gettimeofday(struct timeval *tv, void *tz){
   (void)tz;
   if (wfail()) { errno = EFAULT; return -1; }
-  tv->tv_sec = verif_w.tv_sec; tv->tv_usec = verif_w.tv_usec;
+  tv->tv_sec = verif_w.tv_sec; tv->tv_usec = verif_w.tv_usec; verif_w.tod_ok = 1;
   return 0;
 }
 /* GNU strerror_r: may or may not use the caller's buffer */
